@@ -4,8 +4,8 @@
 import json, os, shutil, sys
 p, slug, needs, det, hist = sys.argv[1:6]
 also = sys.argv[6].split(",") if len(sys.argv) > 6 and sys.argv[6] else []
-src = "/tmp/seed3/%s" % p
-dst = "/verif/seeded/%s-r3-%s" % (p, slug)
+src = "%s/%s" % (os.environ.get("SEED_SRC", "/tmp/seed3"), p)
+dst = "/verif/seeded/%s-%s-%s" % (p, os.environ.get("SEED_ROUND", "r3"), slug)
 os.makedirs(dst, exist_ok=True)
 for f in os.listdir(src):
     if f == "README.md":
@@ -16,6 +16,6 @@ head = os.popen("git -C /repo rev-parse --short HEAD").read().strip()
 json.dump({"property": p, "also_breaks": also, "needs": needs, "detected_by": [d.strip() for d in det.split(";") if d.strip()],
            "history": hist,
            "ran": "tool/harvest3.sh (seed_eval.sh on a clean worktree of HEAD %s): demo exit 0 on HEAD, patch applies, build ok, 42 tests pass, demo exit 1 with the patch" % head,
-           "source": "independent sub-agent (round 3) given only the property text, the sites of the two earlier changes to avoid, and a scratch worktree"},
+           "source": "independent sub-agent (round %s) given only the property text, the sites of the earlier changes" % os.environ.get("SEED_ROUND", "r3")[1:] + " to avoid, and a scratch worktree"},
           open(os.path.join(dst, "meta.json"), "w"), indent=1)
 print(dst, os.listdir(dst))
